@@ -1,7 +1,7 @@
 """Rules over fastrace::util::spsc (used by C01, C04, C08, C09)."""
 import re
 
-from .core import Prov, has_origin, origin_strs, result_switches
+from .core import Prov, agg_sites_star, has_origin, origin_strs, result_switches
 
 SENDER = "fastrace::util::spsc::Sender"
 RECEIVER = "fastrace::util::spsc::Receiver"
@@ -74,13 +74,7 @@ def rule_try_recv(ctx, facts, rule):
     fn = ctx.need_fn(facts, RECEIVER + "::<T>::try_recv", rule)
     if fn is None:
         return
-    closed = []
-    for b, blk in enumerate(fn.blocks):
-        if blk["cleanup"]:
-            continue
-        for s in blk["stmts"]:
-            if s["k"] == "assign" and s["rv"]["k"] == "agg" and s["rv"].get("adt", "").endswith("spsc::ChannelClosed"):
-                closed.append(b)
+    closed = agg_sites_star(facts, fn, lambda rv: rv.get("adt", "").endswith("spsc::ChannelClosed"))
     aband = [b for b in fn.calls_re(r"rtrb::Consumer::<T>::is_abandoned$") if not fn.blocks[b]["cleanup"]]
     pops = [b for b in fn.calls_re(r"rtrb::Consumer::<T>::pop$") if not fn.blocks[b]["cleanup"]]
     if not ctx.floor(rule, fn.path, len(closed), 1, "constructions of ChannelClosed"):
@@ -208,6 +202,25 @@ def rule_sender_drop(ctx, facts, rule):
     for p in pushes:
         src = prov.of_operand(fn, fn.term(p)["args"][1])
         rev = rev or any(v[0] == "call" and re.search(r"Iterator>?::(rev|next_back|last)$|::(pop|pop_back)$", v[1]) for o in src for v in o.via)
+    # internal iteration: `drain(..).for_each(|parked| { push(parked) })` -- the loop is for_each itself
+    each = False
+    for c in facts.closures_of(fn):
+        cp = ring_pushes(c)
+        if not cp:
+            continue
+        for hb in fn.calls_re(r"Iterator>?::(for_each|try_for_each)$", cleanup=False):
+            t = fn.term(hb)
+            cd = prov._closure_def(fn, t["args"][1]) if len(t["args"]) > 1 else None
+            if not cd or cd[0] is not c:
+                continue
+            recv = prov.of_operand(fn, t["args"][0])
+            from_field = has_origin(recv, kind="param", key=1, path_suffix=("." + field,))
+            elem = all(any(o.kind == "param" and o.key == 2 for o in prov.of_operand(c, c.term(q)["args"][1])) for q in cp)
+            if from_field and elem:
+                each = True
+                fed = True
+                pushes = pushes or [hb]
+                rev = rev or any(v[0] == "call" and re.search(r"Iterator>?::(rev|next_back|last)$|::(pop|pop_back)$", v[1]) for o in recv for v in o.via)
     ctx.check(not rev, rule, fn.path, fn.span, "the flush keeps the parked order (no rev()/next_back()/pop())", "",
               "the elements pushed at thread exit come through a reversing adaptor", extra="no-rev")
     ctx.check(fed, rule, fn.path, fn.span, "every parked command is pushed to the ring",
@@ -215,7 +228,7 @@ def rule_sender_drop(ctx, facts, rule):
               "no Producer::push in Drop receives elements of `%s`" % field, extra="push")
     # every element taken is pushed: the push lies on the loop (dominated by the Some edge of next/pop)
     if pushes:
-        ctx.check(all(fn.on_cycle(p) or len(deq) == 0 for p in pushes), rule, fn.path, fn.loc(pushes[0]),
+        ctx.check(each or all(fn.on_cycle(p) or len(deq) == 0 for p in pushes), rule, fn.path, fn.loc(pushes[0]),
                   "the push is inside the loop over the parked commands", "", "push is not on the drain loop", extra="loop")
 
 
